@@ -61,6 +61,32 @@ type Parent struct {
 	Friends []*Child `gorm:"many2many:parent_friends"`
 }
 
+// FriendLink is a join model of the caller for Parent.Friends (db.SetupJoinTable): the link rows gorm
+// builds from the keys of both sides are records of a model with its own create/save hooks.
+type FriendLink struct {
+	ParentID uint `gorm:"primaryKey"`
+	ChildID  uint `gorm:"primaryKey"`
+	Kind     string
+}
+
+func (FriendLink) TableName() string { return "parent_friends" }
+
+func (l *FriendLink) tag() string { return fmt.Sprintf("link.%d-%d", l.ParentID, l.ChildID) }
+
+func (l *FriendLink) hook(tx *gorm.DB, name string) error {
+	return cur.hook(tx, "FriendLink", name, unsafe.Pointer(l), l.tag(), func(string) {})
+}
+
+func (l *FriendLink) BeforeSave(tx *gorm.DB) error { return l.hook(tx, hBeforeSave) }
+func (l *FriendLink) BeforeCreate(tx *gorm.DB) error {
+	l.Kind = "hooked" // a value set by the join model's before-hook: must be what the link row stores
+	return l.hook(tx, hBeforeCreate)
+}
+func (l *FriendLink) AfterCreate(tx *gorm.DB) error { return l.hook(tx, hAfterCreate) }
+func (l *FriendLink) AfterSave(tx *gorm.DB) error   { return l.hook(tx, hAfterSave) }
+
+var linkHooks = hookSetOf(&FriendLink{})
+
 // Item: has-many child of Parent with the composite primary key (parent_id, line_no).
 type Item struct {
 	ParentID uint `gorm:"primaryKey;autoIncrement:false"`
@@ -487,11 +513,14 @@ func applicable(model, hook string) bool {
 	if model == "Child" || model == "Item" {
 		return true
 	}
+	if model == "FriendLink" {
+		return linkHooks[hook]
+	}
 	return kits[model].hooks[hook]
 }
 
 func valueHook(model, hook string) bool {
-	if model == "Child" || model == "Item" {
+	if model == "Child" || model == "Item" || model == "FriendLink" {
 		return false
 	}
 	return kits[model].valueHooks[hook]
@@ -579,7 +608,7 @@ func (r *runState) hook(tx *gorm.DB, model, name string, ptr unsafe.Pointer, tag
 		}
 	}
 	r.invs = append(r.invs, iv)
-	if r.c.Set != "" && r.isSetter(name) {
+	if r.c.Set != "" && r.isSetter(name) && model != "FriendLink" { // (the join model has no Name; it sets its own Kind)
 		v := r.c.setValue(tag)
 		if r.c.Set == "direct" {
 			direct(v)
@@ -658,6 +687,8 @@ const (
 )
 
 type Case struct {
+	JoinModel   bool   // Parent.Friends goes through the caller's join model FriendLink (db.SetupJoinTable), which has create/save hooks
+	Armed       bool   // PrepareStmt: the SQL texts the hooks will run were prepared on the pool (outside any transaction) before
 	Share       string // one in-memory child reachable through several relations: "" | "mentor=boss" | "friends=seen" | "friends=seen+new" | "boss-across-parents"
 	FailWith    string // write operations: the error value failing hooks return (query operations try every value)
 	Raw         bool   // find / first / take: the SQL is given with db.Raw(..), gorm builds no clauses
@@ -730,6 +761,12 @@ func (c Case) String() string {
 	}
 	if c.Share != "" {
 		b.WriteString(" shared-child:" + c.Share)
+	}
+	if c.JoinModel {
+		b.WriteString(" hooked-join-model")
+	}
+	if c.Armed {
+		b.WriteString(" hook-sql-prepared-on-pool-before")
 	}
 	if c.FailWith != "" && c.FailWith != "sentinel" {
 		b.WriteString(" hooks-fail-with=" + c.FailWith)
@@ -900,6 +937,9 @@ func openDB(c *Case) *testdb.DB {
 		if err := d.Exec("CREATE TABLE audits (id integer PRIMARY KEY AUTOINCREMENT, n integer, what text)").Error; err != nil {
 			panic("harness: migrate: " + err.Error())
 		}
+		if err := d.Exec("ALTER TABLE parent_friends ADD COLUMN kind text").Error; err != nil {
+			panic("harness: migrate: " + err.Error())
+		}
 		var stmts []string
 		if err := d.Raw("SELECT sql FROM sqlite_master WHERE sql IS NOT NULL AND name NOT LIKE 'sqlite_%' ORDER BY rowid").Scan(&stmts).Error; err != nil || len(stmts) < 5 {
 			panic(fmt.Sprintf("harness: capture ddl: %v %v", err, stmts))
@@ -910,6 +950,11 @@ func openDB(c *Case) *testdb.DB {
 			if err := d.Exec(q).Error; err != nil {
 				panic("harness: ddl: " + err.Error())
 			}
+		}
+	}
+	if c.JoinModel {
+		if err := d.SetupJoinTable(&Parent{}, "Friends", &FriendLink{}); err != nil {
+			panic("harness: SetupJoinTable: " + err.Error())
 		}
 	}
 	sc := materialize(c)
@@ -968,6 +1013,7 @@ type cRow struct {
 type jRow struct {
 	ParentID uint
 	ChildID  uint
+	Kind     string
 }
 
 type aRow struct {
@@ -1009,7 +1055,7 @@ func (t tables) String() string {
 	}
 	b.WriteString(" parent_friends:")
 	for _, r := range t.J {
-		fmt.Fprintf(&b, " {%d-%d}", r.ParentID, r.ChildID)
+		fmt.Fprintf(&b, " {%d-%d %s}", r.ParentID, r.ChildID, r.Kind)
 	}
 	b.WriteString(" items:")
 	for _, r := range t.I {
@@ -1043,7 +1089,7 @@ func dump(d *testdb.DB, c *Case) (tables, string) {
 	e6 := d.Raw("SELECT parent_id, line_no, tag, name FROM items ORDER BY parent_id, line_no, tag").Scan(&t.I).Error
 	e1 := d.Raw("SELECT id, tag, name, note, age, " + boss + " FROM " + t.Main + " ORDER BY id").Scan(&t.P).Error
 	e2 := d.Raw("SELECT id, tag, name, parent_id, owner_id FROM children ORDER BY id").Scan(&t.C).Error
-	if e7 := d.Raw("SELECT parent_id, child_id FROM parent_friends ORDER BY parent_id, child_id").Scan(&t.J).Error; e7 != nil {
+	if e7 := d.Raw("SELECT parent_id, child_id, COALESCE(kind, '') AS kind FROM parent_friends ORDER BY parent_id, child_id").Scan(&t.J).Error; e7 != nil {
 		panic("harness: dump: " + e7.Error())
 	}
 	e3 := d.Raw("SELECT name, seq FROM sqlite_sequence ORDER BY name").Scan(&seqs).Error
@@ -1073,6 +1119,7 @@ type memory struct {
 	ptrs  map[string]uintptr // tag -> address of the in-memory child records (kids, bosses)
 	find  func() []memRec    // find / first: the loaded records after the operation
 	model interface{}        // map creates: the Model(..) value
+	links func() [][2]string // after the run: (parent tag, link tag) of every many2many link of the argument
 }
 
 // buildParent: pointer-typed children (Boss, Mentor, Friends) with equal tags are ONE in-memory
@@ -1205,6 +1252,15 @@ func buildParentMem(c *Case) *memory {
 		} else {
 			m.arg = s
 		}
+	}
+	m.links = func() [][2]string {
+		var out [][2]string
+		for _, p := range parents {
+			for _, f := range p.Friends {
+				out = append(out, [2]string{p.Tag, (&FriendLink{ParentID: p.ID, ChildID: f.ID}).tag()})
+			}
+		}
+		return out
 	}
 	for _, p := range parents {
 		m.recs = append(m.recs, ref(p))
@@ -1605,6 +1661,19 @@ func runOnce(c *Case, failAt int, failKind ...string) (res runResult, problems [
 	if len(failKind) > 0 {
 		rs.failKind = failKind[0]
 	}
+	if c.Armed {
+		// the texts the hooks will send were last prepared OUTSIDE a transaction: run them once on the pool
+		h := d.DB
+		if c.Prepare == "session" {
+			h = d.Session(&gorm.Session{PrepareStmt: true})
+		}
+		for n := 0; n < 48; n++ {
+			var one int
+			if err := h.Raw(probeText(n)).Scan(&one).Error; err != nil {
+				panic("harness: arming the statement cache: " + err.Error())
+			}
+		}
+	}
 	cur = rs
 	defer func() { cur = nil }()
 	d.Rec.Reset()
@@ -1807,6 +1876,16 @@ func expect(c *Case, m *memory) expectation {
 				}
 				wantedChild[kd.Tag] = true
 				ex.Wants = append(ex.Wants, want{Tag: kd.Tag, Model: "Child", Kind: "create", Table: "children", Parent: p.Tag, Ptr: m.ptrs[kd.Tag]})
+			}
+		}
+	}
+	if c.JoinModel && m.links != nil && c.Op != opDelete && c.Shape != shCond {
+		// the link rows are records of the caller's join model: its hooks once per row
+		seenLink := map[string]bool{}
+		for _, l := range m.links() {
+			if !seenLink[l[1]] {
+				seenLink[l[1]] = true
+				ex.Wants = append(ex.Wants, want{Tag: l[1], Model: "FriendLink", Kind: "create", Table: "parent_friends", Parent: l[0]})
 			}
 		}
 	}
@@ -2279,6 +2358,9 @@ func checkStored(c *Case, ex expectation, res runResult) []string {
 					for _, j := range t.J {
 						if j.ParentID == row.ID && j.ChildID == crows[0].ID {
 							linked = true
+							if c.JoinModel && c.hooksRun() && j.Kind != "hooked" {
+								bad("the link row %d-%d holds kind %q, the join model's BeforeCreate set \"hooked\"", j.ParentID, j.ChildID, j.Kind)
+							}
 						}
 					}
 					if !linked {
@@ -2508,6 +2590,17 @@ func caseClasses(c *Case) []string {
 	}
 	if c.Share != "" {
 		cl = append(cl, "shared-child:"+c.Share)
+	}
+	if c.JoinModel {
+		cl = append(cl, "hooked-join-model")
+		for _, r := range c.Recs {
+			if len(r.Friends) > 0 {
+				cl = append(cl, "hooked-join-model:links-written")
+			}
+		}
+	}
+	if c.Armed {
+		cl = append(cl, "prepare-stmt:hook-sql-on-pool-before")
 	}
 	if c.AuditCreate {
 		cl = append(cl, "hooks-write-audits-by-create")
@@ -3068,6 +3161,12 @@ func drawCase(t *rapid.T) *Case {
 			break
 		}
 	}
+	if isParent {
+		c.JoinModel = rapid.IntRange(0, 2).Draw(t, "hooked-join-model") == 0
+	}
+	if c.Prepare != "" && c.Probe == "raw" {
+		c.Armed = rapid.Bool().Draw(t, "hook-sql-on-pool-before")
+	}
 	hist := []string{"", "", "", "", "sibling-skiphooks"}
 	withChildren := false
 	for _, r := range c.Recs {
@@ -3111,6 +3210,7 @@ const rule = "C13: rapid draws a top-level model type - Parent (all nine hooks; 
 	"Find / FindInBatches / First / Take / Last / FirstOrInit / FirstOrCreate with optional Preload, Find / First / Take over the caller's own db.Raw(..) SQL, and Pluck / Count; " +
 	"with or without Session{SkipHooks}, default transaction on or SkipDefaultTransaction (Config or Session), PrepareStmt (Config or Session), dialector with or without RETURNING, FullSaveAssociations, DisableNestedTransaction, " +
 	"outside or inside a caller transaction (Begin, Transaction closure, nested Transaction = save point), from a plain / WithContext / Session{Initialized} / Session{NewDB} / Debug handle, after a sibling SkipHooks session or a column update on the same reusable handle; " +
+	"the many2many may go through a join model of the caller (SetupJoinTable) with its own create/save hooks; under PrepareStmt the hooks' SQL texts may have been prepared on the pool before; " +
 	"one in-memory child may be reachable through several relations of the operation (same pointer as two belongs-to, or as a belongs-to and the many2many slice: still one set of hooks); " +
 	"a before-hook of Parent may set Name directly or through Statement.SetColumn; hooks of a write may also store a side row through their handle (Exec or a nested gorm Create). " +
 	"The operation runs fault-free once (H hook invocations; event-log grammar, transaction identity and stored values checked), then EVERY h<H is run with the h-th invocation returning an error, each from an identical fresh database " +
